@@ -118,6 +118,9 @@ FUNCS = OrderedDict([
     ('conv2', lambda x: np.convolve(x, [.5, .5], 'valid')),
     ('cumsum', lambda x: x.cumsum()),
     ('first', lambda x: x[:1]),
+    # same length, other first element
+    ('reverse', lambda x: x[::-1]),
+    ('demean', lambda x: x - x.mean()),
     # a function that returns a SCALAR (the library is handed the scalar-returning form, see c03.fn_to_py)
     ('scalar_mean', lambda x: np.ma.atleast_1d(x.mean()) if isinstance(x, np.ma.MaskedArray) else np.atleast_1d(x.mean())),
     # the dict form with keyword options: func1d=scale_shift, a=..., b=...
